@@ -219,6 +219,9 @@ fn lex_ops(data: &[u8], ops: &str) -> Option<String> {
                 "ni" => res!(lx.next_id(), opt_id),
                 "pi" => emit!(opt_id(lx.peek_id())),
                 "pt" => emit!(opt_tok(lx.peek_token())),
+                // >>> a_c08: Lexer::remainder
+                "rem" => emit!(format!("REM:{}", hex(lx.remainder()))),
+                // <<< a_c08
                 "s" => res!(lx.read_string(), |s: Scalar| hex(s.as_bytes())),
                 "b" => res!(lx.read_bool(), |b: bool| (if b { "1" } else { "0" }).to_string()),
                 "u32" => res!(lx.read_u32(), |x: u32| x.to_string()),
@@ -320,7 +323,150 @@ pub fn dispatch(kind: &str, a: &[&str]) -> Option<String> {
             let d = unhex(h);
             rdr_ops(TokenReader::from_slice(&d), ops)?
         }
+        // >>> a_c08 (wave 4): exhaustive id sweep, reader construction modes, bounded writer
+        ("bl.allids", []) => all_ids(),
+        ("bl.mk", [mode, h, cap, sch, h2, n2]) => mk_modes(mode, &unhex(h), cap.parse().ok()?, sch, &unhex(h2), n2.parse().ok()?)?,
+        ("bl.writelim", [ts, lim]) => write_limited(ts, lim.parse().ok()?)?,
+        ("bl.errapi", [h]) => err_api(&unhex(h)),
+        // call mixes (n / r|t / by<k> only), model side = extracted BinOps.reader_ops / lexer_ops
+        ("bl.mrops", [h, cap, sch, ops]) => rdr_ops(mk_reader(&unhex(h), cap.parse().ok()?, sch), ops)?,
+        ("bl.mlops", [h, ops]) => lex_ops(&unhex(h), ops)?,
+        // <<< a_c08
         _ => return None,
     };
     Some(r)
 }
+
+// >>> a_c08 (wave 4)
+/// every one of the 65536 lexeme ids through LexemeId::is_id, Lexer::read_token and Token::write
+fn all_ids() -> String {
+    let mut notid: Vec<String> = Vec::new();
+    let (mut lexid, mut wr, mut agree) = (0u32, 0u32, 0u32);
+    for x in 0..=u16::MAX {
+        let isid = LexemeId::new(x).is_id();
+        if !isid {
+            notid.push(x.to_string());
+        }
+        let mut data = x.to_le_bytes().to_vec();
+        data.extend_from_slice(&[1, 0, 0, 0, 0, 0, 0, 0, 0, 0]);
+        let mut lx = Lexer::new(&data);
+        let as_id = matches!(lx.read_token(), Ok(Token::Id(y)) if y == x) && lx.position() == 2;
+        if as_id {
+            lexid += 1;
+        }
+        if as_id == isid {
+            agree += 1;
+        }
+        let mut out: Vec<u8> = Vec::new();
+        if Token::Id(x).write(&mut out).is_ok() && out == x.to_le_bytes() {
+            wr += 1;
+        }
+    }
+    format!("notid:{}|lexid:{}|wr:{}|agree:{}", notid.join(","), lexid, wr, agree)
+}
+
+/// the ways a TokenReader can be constructed: `new` (default buffer), `len` (builder().buffer_len),
+/// `buf` (builder().buffer with a dirty buffer), `rec` (a buffer recycled through into_parts of a
+/// reader that first ran over other data, so that it holds stale *tokens*)
+fn mk_modes(mode: &str, data: &[u8], cap: usize, sched: &str, first: &[u8], n_first: usize) -> Option<String> {
+    let rd = SchedReader {
+        data: data.to_vec(),
+        pos: 0,
+        sched: parse_sched(sched),
+        idx: 0,
+    };
+    let (run, blen, inner_ok) = match mode {
+        "new" => (run_reader(TokenReader::new(rd)), 32 * 1024, true),
+        "len" => (run_reader(TokenReader::builder().buffer_len(cap).build(rd)), cap, true),
+        "buf" => (run_reader(TokenReader::builder().buffer(vec![0xA5u8; cap].into_boxed_slice()).build(rd)), cap, true),
+        "rec" => {
+            let rd0 = SchedReader {
+                data: first.to_vec(),
+                pos: 0,
+                sched: parse_sched(sched),
+                idx: 0,
+            };
+            let mut a = TokenReader::builder().buffer_len(cap).build(rd0);
+            for _ in 0..n_first {
+                if !matches!(a.next(), Ok(Some(_))) {
+                    break;
+                }
+            }
+            let pos_a = a.position();
+            let (buf, inner) = a.into_parts();
+            let blen = buf.len();
+            // the inner reader has delivered at least what the token reader consumed, and only its own data
+            let ok = inner.pos >= pos_a && inner.pos <= first.len() && inner.data == first;
+            (run_reader(TokenReader::builder().buffer(buf).build(rd)), blen, ok)
+        }
+        _ => return None,
+    };
+    Some(format!("{} buf={} inner={}", run, blen, if inner_ok { 1 } else { 0 }))
+}
+
+/// the accessor functions of LexerError / ReaderError (position, kind, into_kind, Display, Error::source):
+/// class of the first error of the lexer and of the slice reader, and whether the reported offset lies
+/// inside the input (the exact offset and the message are not part of the canonical output)
+fn err_api(data: &[u8]) -> String {
+    use std::error::Error;
+    let mut lx = Lexer::new(data);
+    let l = loop {
+        match lx.next_token() {
+            Ok(Some(_)) => {}
+            Ok(None) => break "END".to_string(),
+            Err(e) => {
+                let inrange = e.position() <= data.len();
+                let shown = !e.to_string().is_empty() && !e.kind().to_string().is_empty() && e.source().is_none();
+                let k = lex_class(e.kind());
+                let same = lex_class(&e.into_kind()) == k;
+                break format!("ERR:{}:{}", k, if inrange && shown && same { 1 } else { 0 });
+            }
+        }
+    };
+    let mut rd = TokenReader::from_slice(data);
+    let r = loop {
+        match rd.next() {
+            Ok(Some(_)) => {}
+            Ok(None) => break "END".to_string(),
+            Err(e) => {
+                let inrange = e.position() <= data.len();
+                let shown = !e.to_string().is_empty();
+                let k = reader_err(&e);
+                let same = match e.into_kind() {
+                    ReaderErrorKind::Lexer(x) => format!("ERR:{}", lex_class(&x)) == k,
+                    _ => false,
+                };
+                break format!("{}:{}", k, if inrange && shown && same { 1 } else { 0 });
+            }
+        }
+    };
+    format!("{} {}", l, r)
+}
+
+/// Token::write into a writer that accepts only `lim` bytes (`&mut [u8]`): which token fails, what was written
+fn write_limited(ts: &str, lim: usize) -> Option<String> {
+    let mut store = vec![0u8; lim];
+    let mut n_ok = 0usize;
+    let mut failed = false;
+    let left;
+    {
+        let mut w: &mut [u8] = &mut store[..];
+        if ts != "-" {
+            for s in ts.split(' ') {
+                let r = match parse_tok(s)? {
+                    OTok::Plain(t) => t.write(&mut w),
+                    OTok::Q(b) => Token::Quoted(Scalar::new(&b)).write(&mut w),
+                    OTok::U(b) => Token::Unquoted(Scalar::new(&b)).write(&mut w),
+                };
+                if r.is_err() {
+                    failed = true;
+                    break;
+                }
+                n_ok += 1;
+            }
+        }
+        left = w.len();
+    }
+    Some(format!("{}:{}:{}", if failed { "ERR" } else { "OK" }, n_ok, hex(&store[..lim - left])))
+}
+// <<< a_c08
